@@ -18,7 +18,7 @@ suite `build`: `to_marrow(fields, rows)`.
           error the same annotations;
   spec  : C01 decode(impl arrays) = interp(rows)      (SaModel/Spec/{Decode,Interp})
           C03 WF field array, one length, one array per field   (SaModel/Spec/WF) — for EVERY accepted input, rows
-              with malformed key/value call streams (`containsMalformed`) included: since repo fix bcc3416 a Map builder
+              with malformed key/value call streams (`containsMalformed`) included: since repo fix eafdf15 a Map builder
               refuses the streams that do not alternate and `C03_wf` carries no hypothesis about them, so a malformed
               stream into a schema is never accepted with arrays that are not well formed
           C05 success ⇒ every row was representable; a malformed call stream accepted with arrays that are not well
